@@ -111,8 +111,34 @@ Pending(how, change, nested) ==
         [] how = "element-args" -> <<Shout(11, G("first", <<Idx(Var("a"), Num(0)), G("clobber", <<>>)>>))>>
         [] how = "nested-literal" -> <<Make(10, "b", Arr(<<Arr(<<Var("a")>>), G("clobber", <<>>)>>)), Shout(11, Var("b"))>>)
      \o <<Shout(12, Var("a"))>>
+\* REDECL(where, grow): an array variable is declared TWICE in the same block (the second `make` re-uses the slot), then grown
+\* by pushes inside a loop whose body also creates other computed strings, then read.
+Loop(id, c, b) == [k |-> "loop", id |-> id, c |-> c, b |-> b]
+Set(id, x, e) == [k |-> "set", id |-> id, n |-> x, site |-> 0, e |-> e]
+Redecl(where, second, n) ==
+  LET a2 == CASE second = "literal" -> Arr(<<Fresh(2)>>) [] second = "copy" -> Var("z") [] second = "empty" -> Arr(<<>>)
+      body == <<Make(1, "z", Arr(<<Fresh(7), Fresh(8)>>)), Make(2, "a", Arr(<<Fresh(1)>>)), Make(3, "a", a2), Make(4, "i", Num(0)),
+                Loop(5, Bin("lt", Var("i"), Num(n)), <<Set(6, "i", Bin("add", Var("i"), Num(1))), ExprS(7, M(Var("a"), "push", <<Fresh(3)>>)),
+                                                      Make(8, "t", Arr(<<Fresh(4), Fresh(5), Fresh(6)>>))>>),
+                Shout(9, Var("a")), Shout(10, Var("z"))>>
+  IN IF where = "top" THEN body ELSE <<Def(20, "run", <<>>, body \o <<Ret(21, Var("a"))>>), Shout(22, G("run", <<>>))>>
+\* PUSHCALL(src, where): the array pushed onto another is the RESULT OF A CALL written in place (`rows.push(line.split(","))`,
+\* a user function's result, another array's pop()), inside a loop or a function, followed by other computed strings, then read
+PushCall(src, where) ==
+  LET line == Bin("add", StrL(<<97, 44>>), StrL(<<98, 44, 99>>))                       \* "a," add "b,c" : computed
+      arg == CASE src = "split" -> M(Var("line"), "split", <<StrL(<<44>>)>>)
+               [] src = "user" -> G("mk", <<>>)
+               [] src = "pop" -> M(Var("src"), "pop", <<>>)
+      pre == <<Make(1, "line", line), Def(2, "mk", <<>>, <<Ret(3, Arr(<<Fresh(1), Fresh(2)>>))>>),
+               Make(4, "src", Arr(<<Arr(<<Fresh(3)>>), Arr(<<Fresh(4)>>), Arr(<<Fresh(5)>>)>>)), Make(5, "rows", Arr(<<>>))>>
+      step == <<ExprS(10, M(Var("rows"), "push", <<arg>>)), Make(11, "t", Arr(<<Fresh(6), Fresh(7)>>))>>
+  IN CASE where = "loop" -> pre \o <<Make(6, "i", Num(0)), Loop(7, Bin("lt", Var("i"), Num(2)), <<Set(8, "i", Bin("add", Var("i"), Num(1)))>> \o step), Shout(12, Var("rows"))>>
+       [] where = "function" -> pre \o <<Def(6, "add1", <<>>, step \o <<Ret(9, Num(0))>>), ExprS(7, G("add1", <<>>)), ExprS(8, G("add1", <<>>)), Shout(12, Var("rows"))>>
+       [] where = "top" -> pre \o step \o <<Shout(12, Var("rows"))>>
 Programs ==
-       {Capt(mm, c, el) : mm \in CaptMuts, c \in {"param", "local", "block", "nested-owner"}, el \in {"num", "str"}}
+       {Redecl(w, sc, n) : w \in {"top", "function"}, sc \in {"literal", "copy", "empty"}, n \in {1, 3}}
+  \cup {PushCall(sr, w) : sr \in {"split", "user", "pop"}, w \in {"loop", "function", "top"}}
+  \cup {Capt(mm, c, el) : mm \in CaptMuts, c \in {"param", "local", "block", "nested-owner"}, el \in {"num", "str"}}
   \cup {Pending(h, ch, n) : h \in {"literal", "args", "element-args", "nested-literal"}, ch \in {"store", "pop", "whole", "reverse-store"}, n \in {TRUE, FALSE}}
   \cup {Rec(o, mm, w, d) : o \in {"local", "param"}, mm \in Muts, w \in {"after", "before"}, d \in {1, 2}}
   \cup {Share(c, ch, rf, n) : c \in {"call", "make"}, ch \in {"store", "pop", "push", "whole"}, rf \in {"var", "push", "two", "none"}, n \in {TRUE, FALSE}}
